@@ -67,3 +67,124 @@ fn k_wire_start_with__prologue_then_source() {
   assert!(log.is(&[EV_N | y1 as u32, EV_N | y2 as u32, EV_N | x1 as u32, EV_C]), "wire.start_with: trace differs from ys ++ xs, terminal mirrored");
   kani::cover!(true, "harness reaches its end");
 }
+
+// ---- further bounded conformance harnesses for operators without a Verus unit (run natively, see kani/harnesses.toml "wire") ----
+// zip with three sources: tuple positions follow the order (source, others in the order given); one tuple per complete row
+#[kani::proof]
+#[kani::unwind(4)]
+fn k_wire_zip__three_sources_positions_and_completion() {
+  let sa: &'static Slot<Observer<'static, u8>> = Slot::new();
+  let sb: &'static Slot<Observer<'static, u8>> = Slot::new();
+  let sc: &'static Slot<Observer<'static, u8>> = Slot::new();
+  let log = Log::new();
+  let got: &'static Slot<Vec<u8>> = Slot::new();
+  let _s = hot(sa).zip(&[hot(sb), hot(sc)]).subscribe(
+    move |v: Vec<u8>| { got.set(v); log.push(EV_N) },
+    move |e: RxError| log.push(EV_E | err_id(&e)),
+    move || log.push(EV_C),
+  );
+  let (a, b, c) = (sa.get().unwrap(), sb.get().unwrap(), sc.get().unwrap());
+  c.next(3);
+  a.next(1);
+  assert!(log.len() == 0, "wire.zip: a tuple was emitted before every source had an item");
+  b.next(2);
+  assert!(log.is(&[EV_N]) && got.get().unwrap() == vec![1, 2, 3], "wire.zip: the tuple is not (item of source, item of 1st other, item of 2nd other)");
+  a.complete();
+  b.complete();
+  assert!(log.is(&[EV_N]), "wire.zip: completed before all sources completed");
+  c.complete();
+  assert!(log.is(&[EV_N, EV_C]), "wire.zip: did not complete exactly once after all sources completed");
+  kani::cover!(true, "harness reaches its end");
+}
+
+// sequence_equal on equal sequences and on sequences that differ in an item (length differences are an open known finding)
+#[kani::proof]
+#[kani::unwind(4)]
+fn k_wire_sequence_equal__equal_and_different_item() {
+  let l1 = Log::new();
+  let l2 = Log::new();
+  let _s1 = observables::from_iter([1u8, 2, 3].into_iter()).sequence_equal(&[observables::from_iter([1u8, 2, 3].into_iter())]).subscribe(
+    move |b: bool| l1.push(EV_N | b as u32), move |e: RxError| l1.push(EV_E), move || l1.push(EV_C));
+  assert!(l1.is(&[EV_N | 1, EV_C]), "wire.sequence_equal: equal sequences are not reported as true, complete");
+  let _s2 = observables::from_iter([1u8, 2, 3].into_iter()).sequence_equal(&[observables::from_iter([1u8, 9, 3].into_iter())]).subscribe(
+    move |b: bool| l2.push(EV_N | b as u32), move |e: RxError| l2.push(EV_E), move || l2.push(EV_C));
+  assert!(l2.is(&[EV_N | 0, EV_C]), "wire.sequence_equal: sequences differing in an item are not reported as false, complete");
+  kani::cover!(true, "harness reaches its end");
+}
+
+// group_by: one inner observable per key, announced when the key first appears; each inner mirrors the items of its key and the terminal
+#[kani::proof]
+#[kani::unwind(4)]
+fn k_wire_group_by__routes_items_by_key() {
+  let sa: &'static Slot<Observer<'static, u8>> = Slot::new();
+  let outer = Log::new();
+  let even = Log::new();
+  let odd = Log::new();
+  let _s = hot(sa).group_by(|x: u8| x % 2).subscribe(
+    move |g: Observable<'static, u8>| {
+      let n = outer.len();
+      outer.push(EV_N);
+      let log = if n == 0 { even } else { odd };
+      g.subscribe(move |x: u8| log.push(EV_N | x as u32), move |e: RxError| log.push(EV_E), move || log.push(EV_C));
+    },
+    move |e: RxError| outer.push(EV_E),
+    move || outer.push(EV_C),
+  );
+  let a = sa.get().unwrap();
+  a.next(2);
+  a.next(3);
+  a.next(4);
+  a.next(5);
+  a.complete();
+  assert!(outer.is(&[EV_N, EV_N, EV_C]), "wire.group_by: the outer observable must emit one group per key, then mirror the terminal");
+  assert!(even.is(&[EV_N | 2, EV_N | 4, EV_C]), "wire.group_by: the group of the first key did not get exactly its items and the terminal");
+  assert!(odd.is(&[EV_N | 3, EV_N | 5, EV_C]), "wire.group_by: the group of the second key did not get exactly its items and the terminal");
+  kani::cover!(true, "harness reaches its end");
+}
+
+// map_to_any + downcast gives the items back; from_result(Ok) = just, from_result(Err) = error with the same payload
+#[kani::proof]
+#[kani::unwind(4)]
+fn k_wire_map_to_any_and_from_result() {
+  let l1 = Log::new();
+  let _s1 = observables::from_iter([4u8, 5].into_iter()).map_to_any().subscribe(
+    move |x| l1.push(EV_N | *x.downcast_ref::<u8>().unwrap() as u32), move |e: RxError| l1.push(EV_E), move || l1.push(EV_C));
+  assert!(l1.is(&[EV_N | 4, EV_N | 5, EV_C]), "wire.map_to_any: items are not given back by downcasting");
+  let l2 = Log::new();
+  let _s2 = observables::from_result(Ok::<u8, u16>(7)).subscribe(move |x: u8| l2.push(EV_N | x as u32), move |e: RxError| l2.push(EV_E), move || l2.push(EV_C));
+  assert!(l2.is(&[EV_N | 7, EV_C]), "wire.from_result: Ok(x) must behave like just(x)");
+  let l3 = Log::new();
+  let _s3 = observables::from_result(Err::<u8, u16>(300)).subscribe(
+    move |x: u8| l3.push(EV_N), move |e: RxError| l3.push(EV_E | (*e.downcast_ref::<u16>().unwrap() as u32 & 0xff)), move || l3.push(EV_C));
+  assert!(l3.is(&[EV_E | (300 & 0xff)]), "wire.from_result: Err(e) must behave like error(e) with the same payload");
+  kani::cover!(true, "harness reaches its end");
+}
+
+// window_with_count(2): windows [1,2] [3]; start_with on a cold source
+#[kani::proof]
+#[kani::unwind(4)]
+fn k_wire_window_with_count__two() {
+  let sa: &'static Slot<Observer<'static, u8>> = Slot::new();
+  let outer = Log::new();
+  let w1 = Log::new();
+  let w2 = Log::new();
+  let _s = hot(sa).window_with_count(2).subscribe(
+    move |w: Observable<'static, u8>| {
+      let n = outer.len();
+      outer.push(EV_N);
+      let log = if n == 0 { w1 } else { w2 };
+      w.subscribe(move |x: u8| log.push(EV_N | x as u32), move |e: RxError| log.push(EV_E), move || log.push(EV_C));
+    },
+    move |e: RxError| outer.push(EV_E),
+    move || outer.push(EV_C),
+  );
+  let a = sa.get().unwrap();
+  a.next(1);
+  a.next(2);
+  a.next(3);
+  a.complete();
+  assert!(outer.is(&[EV_N, EV_N, EV_C]), "wire.window_with_count: one inner observable per window, then the terminal");
+  assert!(w1.len() >= 1 && w1.get(w1.len() - 1) == EV_C, "wire.window_with_count: a full window was not completed");
+  assert!(w2.is(&[EV_C]) || w2.is(&[EV_N | 3, EV_C]), "wire.window_with_count: the last window did not get the source terminal");
+  kani::cover!(true, "harness reaches its end");
+}
